@@ -15,8 +15,8 @@ EXTENDS AccelScan, TraceKit
 
 CONSTANT Want
 
-VARIABLES l, fails, judged, unjudged, drift, weak, weakdiff, done
-tvars == <<l, fails, judged, unjudged, drift, weak, weakdiff, done>>
+VARIABLES l, fails, judged, unjudged, drift, weak, weakdiff, wr, done
+tvars == <<l, fails, judged, unjudged, drift, weak, weakdiff, wr, done>>
 
 \* ---- C12 -------------------------------------------------------------------
 \* the contract determines the snapshot only when distinct names of a directory map to
@@ -40,28 +40,30 @@ ICacheFn(rows) == [k \in {<<rows[i].path, rows[i].dir>> : i \in DOMAIN rows} |->
                     IN [ig |-> e.ig, ct |-> e.ct]]
 Norm(s) == IF s.ok THEN [s EXCEPT !.cache = CacheFn(s.cache), !.icache = ICacheFn(s.icache)] ELSE [ok |-> FALSE]
 
-NodeAt(facts, path) == IF path = <<>> THEN facts
-                       ELSE LET RECURSIVE Go(_, _)
-                                Go(n, p) == IF p = <<>> THEN n
-                                            ELSE IF n.t = "dir" /\ Head(p) \in DOMAIN n.c THEN Go(n.c[Head(p)], Tail(p))
-                                            ELSE Absent
-                            IN Go(facts, path)
+\* the node recorded under a KEY path (keys are recomposed names on a decomposing filesystem)
+NodeAt(facts, path, cfg) ==
+  LET RECURSIVE Go(_, _)
+      Go(n, p) == IF p = <<>> THEN n
+                  ELSE IF n.t # "dir" THEN Absent
+                  ELSE LET hits == {m \in DOMAIN n.c : n.c[m].u8 /\ Key(m, n.c[m], cfg) = Head(p)} IN
+                       IF hits = {} THEN Absent ELSE Go(n.c[CHOOSE m \in hits : TRUE], Tail(p))
+  IN Go(facts, path)
 
 \* the baseline and its digest cache describe the old disk
 BaselineFaithful(old, cfg, base) ==
   /\ base.ok /\ Scannable(old) /\ KeysDistinct(old, cfg)
   /\ Shape(base.content) = Observe(old, cfg)
   /\ \A p \in DOMAIN base.cache :
-       LET n == NodeAt(old, p) c == base.cache[p] IN
+       LET n == NodeAt(old, p, cfg) c == base.cache[p] IN
        n.t = "file" /\ n.d = c.d /\ n.mt = c.mt /\ n.sz = c.sz /\ n.ino = c.ino /\ n.m = c.m
 
-Recheck(r) == {r.recheck[i] : i \in DOMAIN r.recheck}
+Recheck(r) == {r.recheck[i] : i \in DOMAIN r.recheck}                                  \* as reported (on-disk form)
+RecheckRC(r) == {[raw |-> r.recheck[i], nfc |-> r.recheck_nfc[i]] : i \in DOMAIN r.recheck}   \* with the NFC form of each
 
 \* the precondition of the statement, evaluated on walker facts
 Reported(r) == Changed(<<>>, r.old, r.new) \subseteq Recheck(r)
 \* what both reporting disciplines share
 Common(r, base) ==
-  /\ ~r.cfg.decomp                          \* raw names = keys (the driver does not combine decomposition with acceleration)
   /\ BaselineFaithful(r.old, r.cfg, base)
   /\ KeysDistinct(r.new, r.cfg)
   /\ StampsTellContent(r.old, r.new)
@@ -75,13 +77,45 @@ AccelFails(i, r, acc, cold, pre) ==
 
 \* conformance of the transcription: the model's accelerated scan of the recorded inputs = the real one
 ModelAgrees(r, base, acc) ==
-  LET m == AScan(r.new, r.cfg, base, Recheck(r), base.cache, base.icache, TRUE)
+  LET m == AScan(r.new, r.cfg, base, RecheckRC(r), base.cache, base.icache, TRUE)
   IN /\ m.ok = acc.ok
      /\ m.ok => /\ Shape(m.content) = Shape(acc.content)
                 /\ m.dirs = acc.dirs /\ m.files = acc.files /\ m.links = acc.links /\ m.bytes = acc.bytes
                 /\ m.cache = acc.cache /\ m.icache = acc.icache
 
-TInit == l = 1 /\ fails = <<>> /\ judged = 0 /\ unjudged = 0 /\ drift = 0 /\ weak = 0 /\ weakdiff = 0 /\ done = FALSE
+\* ---- growth: the real local endpoint in recursive-watch mode and across restarts ----
+\* Record "WScan": one Scan of the endpoint.  hook = what the endpoint handed to core.Scan (observed through
+\* verifScanInputs: baseline given?, acceleration flag; base = that baseline and digest cache; recheck = those
+\* re-check paths), old = the disk the baseline was taken from, new = the disk now, hist = every disk state of the
+\* case (a persisted or inherited digest cache may describe any of them), accel = the snapshot the endpoint
+\* returned, cold = the harness's cold core.Scan of the same disk, events = the paths the plugged-in watcher
+\* delivered (and the endpoint finished handling) since the last accelerated or baseline scan.
+\* Verdicts are C13's: whenever its premise holds on the walker's facts, the endpoint's scan equals the cold one.
+NormBase(b) == IF b.ok THEN Norm(b) ELSE [ok |-> FALSE, cache |-> CacheFn(b.cache), icache |-> <<>>]
+CacheHonest(r, cache) ==
+  \A p \in DOMAIN cache : \E j \in DOMAIN r.hist :
+     LET n == NodeAt(r.hist[j], p, r.cfg) c == cache[p] IN
+     n.t = "file" /\ n.d = c.d /\ n.mt = c.mt /\ n.sz = c.sz /\ n.ino = c.ino /\ n.m = c.m
+StampsThroughout(r) == \A j \in DOMAIN r.hist : StampsTellContent(r.hist[j], r.new)
+WCommon(r, base) ==
+  /\ ~r.tainted /\ KeysDistinct(r.new, r.cfg)
+  /\ CacheHonest(r, base.cache) /\ StampsThroughout(r)
+  /\ r.hook.baseline => /\ base.ok /\ Scannable(r.old) /\ KeysDistinct(r.old, r.cfg)
+                        /\ Shape(base.content) = Observe(r.old, r.cfg)
+WScanFails(i, r, acc, cold, pre) ==
+       Chk(Want, i, "C13_NoHang", ~r.cold.hung)
+    \o Chk(Want, i, "C13_AccelEqualsFull", pre => SameSnapshot(acc, cold))
+    \o Chk(Want, i, "C13_AccelDescribesDisk", pre => C12_SnapshotExact(r.new, r.cfg, acc) /\ C12_CountsMatchContent(r.new, r.cfg, acc))
+WModelAgrees(r, base, acc) ==
+  LET m == AScan(r.new, r.cfg, IF r.hook.baseline THEN base ELSE NoBaseline, RecheckRC(r), base.cache, <<>>, TRUE)
+  IN /\ m.ok = acc.ok
+     /\ m.ok => /\ Shape(m.content) = Shape(acc.content)
+                /\ m.dirs = acc.dirs /\ m.files = acc.files /\ m.links = acc.links /\ m.bytes = acc.bytes
+Wr0 == [scans |-> 0, accelerated |-> 0, judged |-> 0, weak |-> 0, weakdiff |-> 0, model_drift |-> 0,
+        recheck_drift |-> 0, disable_drift |-> 0, mode_drift |-> 0, warm |-> 0, warm_persisted_same |-> 0]
+B(x) == IF x THEN 1 ELSE 0
+
+TInit == l = 1 /\ fails = <<>> /\ judged = 0 /\ unjudged = 0 /\ drift = 0 /\ weak = 0 /\ weakdiff = 0 /\ wr = Wr0 /\ done = FALSE
 \* conformance of the transcription on cold scans: the model's scan of the recorded facts = the real one
 ModelAgreesCold(r) ==
   LET m == ColdScan(r.facts, r.cfg) s == Norm(r.scan) IN
@@ -92,7 +126,7 @@ ModelAgreesCold(r) ==
 StepScan(r) == /\ fails' = Cap(fails \o ScanFails(l, r))
                /\ judged' = judged + 1
                /\ drift' = drift + (IF "Stats" \in Want /\ ~r.scan.hung /\ ~ModelAgreesCold(r) THEN 1 ELSE 0)
-               /\ UNCHANGED <<unjudged, weak, weakdiff>>
+               /\ UNCHANGED <<unjudged, weak, weakdiff, wr>>
 StepAccel(r) ==
   LET base == Norm(r.base) acc == Norm(r.accel) cold == Norm(r.cold)
       common == Common(r, base)
@@ -105,18 +139,47 @@ StepAccel(r) ==
      /\ unjudged' = unjudged + (IF pre THEN 0 ELSE 1)
      /\ weak' = weak + (IF w THEN 1 ELSE 0)
      /\ weakdiff' = weakdiff + (IF w /\ ~SameSnapshot(acc, cold) THEN 1 ELSE 0)
-     /\ drift' = drift + (IF stats /\ r.base.ok /\ ~r.cfg.decomp /\ ~ModelAgrees(r, base, acc) THEN 1 ELSE 0)
+     /\ drift' = drift + (IF stats /\ r.base.ok /\ ~ModelAgrees(r, base, acc) THEN 1 ELSE 0)
+     /\ UNCHANGED wr
+StepWScan(r) ==
+  LET base == NormBase(r.base) acc == Norm(r.accel) cold == Norm(r.cold)
+      common == WCommon(r, base)
+      changed == Changed(<<>>, r.old, r.new)
+      pre == common /\ (r.hook.baseline => changed \subseteq Recheck(r))        \* C13's premise (a full warm scan has no re-check clause)
+      w == common /\ ~pre /\ ParentOrSelfReported(changed, Recheck(r))
+      evs == {r.events[k] : k \in DOMAIN r.events}
+  IN /\ fails' = Cap(fails \o WScanFails(l, r, acc, cold, pre))
+     /\ wr' = [wr EXCEPT !.scans = @ + 1, !.accelerated = @ + B(r.hook.baseline), !.judged = @ + B(pre),
+                         !.weak = @ + B(w), !.weakdiff = @ + B(w /\ ~SameSnapshot(acc, cold)),
+                         !.model_drift = @ + B(~r.tainted /\ ~WModelAgrees(r, base, acc)),
+                         \* WatchRecursive!RegisterEvent / Scan: the re-check set handed to an accelerated scan is exactly
+                         \* what the watcher delivered since the previous one
+                         !.recheck_drift = @ + B(r.hook.baseline /\ Recheck(r) # evs),
+                         \* WatchRecursive!Inv_ErrorDisables: no baseline is used after a watcher error until re-baselined
+                         !.disable_drift = @ + B(r.errSince /\ r.hook.baseline),
+                         \* Scan: a baseline is used exactly when acceleration is on and no full scan was requested
+                         !.mode_drift = @ + B(r.label # "warm-after-restart" /\ (r.hook.baseline # (r.hook.accelerate /\ ~r.full))),
+                         !.warm = @ + B(r.label = "warm-after-restart"),
+                         !.warm_persisted_same = @ + B(r.label = "warm-after-restart" /\ r.persisted.same)]
+     /\ UNCHANGED <<judged, unjudged, drift, weak, weakdiff>>
 Step == /\ l <= NRec
         /\ LET r == Trace[l] IN
            CASE r.ev = "Scan" -> StepScan(r)
              [] r.ev = "Accel" -> StepAccel(r)
+             [] r.ev = "WScan" -> StepWScan(r)
              [] OTHER -> /\ fails' = Cap(Append(fails, Fail(l, "TraceAccepted")))
-                         /\ UNCHANGED <<judged, unjudged, drift, weak, weakdiff>>
+                         /\ UNCHANGED <<judged, unjudged, drift, weak, weakdiff, wr>>
         /\ l' = l + 1 /\ UNCHANGED done
 Finish == /\ l = NRec + 1 /\ ~done
           /\ WriteResult(l - 1, fails, [stat_judged |-> judged, stat_unjudged |-> unjudged, stat_drift |-> drift,
-                                        stat_weak_cases |-> weak, stat_weak_differs |-> weakdiff])
-          /\ done' = TRUE /\ UNCHANGED <<l, fails, judged, unjudged, drift, weak, weakdiff>>
+                                        stat_weak_cases |-> weak, stat_weak_differs |-> weakdiff,
+                                        stat_ep_scans |-> wr.scans, stat_ep_accelerated |-> wr.accelerated,
+                                        stat_ep_judged |-> wr.judged, stat_ep_weak_cases |-> wr.weak,
+                                        stat_ep_weak_differs |-> wr.weakdiff, stat_ep_model_drift |-> wr.model_drift,
+                                        stat_ep_recheck_drift |-> wr.recheck_drift, stat_ep_disable_drift |-> wr.disable_drift,
+                                        stat_ep_mode_drift |-> wr.mode_drift, stat_ep_warm_restarts |-> wr.warm,
+                                        stat_ep_warm_persisted_same |-> wr.warm_persisted_same])
+          /\ done' = TRUE /\ UNCHANGED <<l, fails, judged, unjudged, drift, weak, weakdiff, wr>>
 TNext == Step \/ Finish
 TSpec == TInit /\ [][TNext]_tvars
 ====
